@@ -763,7 +763,12 @@ def run_family(job: dict) -> dict:
         if rng.random() < 0.4:
             tdesc = chainify(rng, tdesc)
         tdesc, _, _, _ = permute_names(random.Random(job["seed"] ^ 0x5EED), tdesc)
-        fam.do({"op": "new", "tdesc": tdesc, "pdesc": pcall.tla_desc_to_py(tdesc), "inputs": [], "kinds": {}})
+        pd = pcall.tla_desc_to_py(tdesc)
+        if job["seed"] % 3 == 0:      # every function cached (a never-evicting cache): a rewrite must not be answered with
+            pd["cache_type"] = "simple"          # results that were cached under the names / structure before it
+            for fd in pd["funcs"]:
+                fd["cache"] = True
+        fam.do({"op": "new", "tdesc": tdesc, "pdesc": pd, "inputs": [], "kinds": {}})
     else:
         case = gen_map.random_map_case(rng, rng.randint(1, 3), max_rank=2, max_size=2)
         td, pd, inp, kd = permute_names(random.Random(job["seed"] ^ 0x5EED), desc_to_tla(case["desc"]), case["desc"],
@@ -782,6 +787,8 @@ def run_family(job: dict) -> dict:
         for is_mut in plan:
             ops = gen_op(fam, rng, counter, mutation=is_mut)
             for op in ops:
+                if op["op"] == "pickle" and job["mode"] == "call" and job["seed"] % 3 == 0:
+                    op = {"op": "copy", "src": op["src"]}     # a non-shared cache refuses to be pickled (documented)
                 fam.do(op)
             if ops:
                 fam.do({"op": "eval_all", "step": len(fam.script)})
@@ -879,6 +886,19 @@ def directed_scripts() -> list[dict]:
                            {"op": "update_defaults", "src": other, "p": "y_in", "v": {"f": "@m_new_y", "a": []}},
                            {"op": "pickle", "src": first, "how": "pickle"},
                            {"op": "update_scope", "src": other, "scope": "s", "inputs": "*", "outputs": "*", "exclude": None}], 0))
+    # cache-rename-*: every function cached in a never-evicting cache; outputs swap their names through a temporary one /
+    # move into a scope and back: no evaluation may be answered with what was cached under a name before the rename
+    cr = [_f("fc", ["x_in"], ["c_out"]), _f("fd", ["x_in"], ["d_out"]), _f("fe", ["c_out", "d_out"], ["e_out"])]
+    for f in cr:
+        f["cache"] = True
+    newc = _new(cr)
+    newc["pdesc"]["cache_type"] = "simple"
+    cases.append(("cache-rename-swap",
+                  [newc, {"op": "update_renames", "src": 1, "ren": {"c_out": "tmp_out"}},
+                   {"op": "update_renames", "src": 1, "ren": {"d_out": "c_out"}},
+                   {"op": "update_renames", "src": 1, "ren": {"tmp_out": "d_out"}},
+                   {"op": "update_scope", "src": 1, "scope": "s", "inputs": None, "outputs": ["c_out"], "exclude": None},
+                   {"op": "update_renames", "src": 1, "ren": {"d_out": "c_out"}}], 0))
     # overwrite-*: update_renames(..., overwrite=True) after an edge (an output and the parameter reading it), a root argument
     # or a scope was renamed: EVERY function goes back to its built spelling except for the names given now
     ow = [_f("fa", ["x_in", "y_in"], ["a_out"], dfl={"y_in": "@d_y"}), _f("fb", ["a_out", "z_in"], ["b_out"]),
